@@ -274,6 +274,12 @@ def oracle(plan, out):
         v("panic", "panic at %s: %s" % (p.get("loc"), p.get("msg", "")))
     present = set(a["id"] for a in plan["actors"])
     byid = {t["cid"]: t for t in meta["tunnels"]}
+    # a sleeping system call on a worker of the runtime stops every task scheduled on it - the tunnels to the healthy
+    # upstream among them - for its whole length (the simulator accounts such calls instead of executing them)
+    bl = R.res.get("blocked_sleeps") or {}
+    if bl.get("max_us", 0) >= 10_000 and any(t["healthy"] for t in meta["tunnels"]):
+        v("healthy-upstream-affected", "a runtime worker was put to sleep %d times (%.3f s in all, %.3f s at most) by a blocking sleep during the outage: tunnels to the healthy upstream stand still meanwhile" % (
+            bl.get("calls", 0), bl.get("us", 0) / 1e6, bl.get("max_us", 0) / 1e6))
     # healthy traffic is never affected
     for t in meta["tunnels"]:
         if t["healthy"] and t["cid"] in present and not tunnel_ok(R, t):
